@@ -19,12 +19,8 @@ from typing import (
 )
 
 from confectioner import mix
-from confectioner.templating import (
-    dotted_key_exists,
-    get_dotted_key,
-    resolve,
-    set_dotted_key,
-)
+from confectioner.templating import get_dotted_key as _get_dotted_key
+from confectioner.templating import resolve, set_dotted_key
 
 from ._missing import MISSING, MaybeMissing
 from .application import FunctionApplication
@@ -37,6 +33,23 @@ A = TypeVar("A", covariant=True, bound="JSON")
 B = TypeVar("B", covariant=True)
 _Domain = Union[Container[A], Callable[[A], bool]]
 Domain = Evaluatable[_Domain]
+
+
+def get_dotted_key(dotted: str, options: Any) -> Any:
+    # A dotted key whose prefix holds a value that is neither a section nor a list
+    # (Option('S.X') when options['S'] is a number) is absent, like any other missing key.
+    try:
+        return _get_dotted_key(dotted, options)
+    except TypeError as e:
+        raise KeyError(dotted) from e
+
+
+def dotted_key_exists(dotted: str, options: Any) -> bool:
+    try:
+        get_dotted_key(dotted, options)
+    except (KeyError, IndexError):
+        return False
+    return True
 
 
 def _strings(value: Any) -> Iterator[str]:
